@@ -3,8 +3,11 @@
      auth/password_hash.go compareHashAndPassword + RandReplKeyCache (the verified-password cache)
      auth/session.go       CreateSession, GetSession, AuthenticateCookie, AuthenticateOneTimeSession,
                            deleteOneTimeSession, DeleteSession
-     auth/auth.go          AuthenticateUser, DeleteUser, Save (through the harness's user operations)
+     auth/auth.go          AuthenticateUser, DeleteUser, Save (through the harness's user operations),
+                           rehashPassword + casUpdatePrincipal (re-hash at login after a bcrypt cost change, split
+                           into its storage steps: LoginRehash / RehashSave)
      rest/session_api.go   deleteUserSessions (= UpdateSessionUUID + Save)
+   The REST layer on top of it (checkPublicAuth, session_api.go) is Rest.v.
 
    Conventions.  User names, session ids and passwords are interned as numbers ([N]); the password
    [0] is the empty password "".  bcrypt, SHA-1 and "longer than 72 bytes" are the fields of a
@@ -57,6 +60,16 @@ End Assoc.
    GetSession (an admin look-up, not an authentication) is the same in both. *)
 Definition cookie_checks_disabled : bool := true.
 
+(* THE ONE DEFINITION that says which rehashPassword is modelled (auth/auth.go; the callback is re-applied by
+   casUpdatePrincipal to a RELOADED user after every CAS mismatch).
+   [true]  = the repaired code (/tmp/c12-fix-rehash.diff): the callback re-hashes only while the copy in hand has a
+             hash of another cost AND that hash still verifies the password presented (compareHashAndPassword,
+             through the verified-password cache) -- a password change that won the CAS race is left alone;
+   [false] = the code before the repair: the callback re-checks only the COST of the reloaded document, so a
+             concurrent SetPassword hashed at another cost is overwritten with the password the login presented
+             (witness C12_Refuted.rehash_mixed_cost_reinstates_old_password_refuted). *)
+Definition rehash_checks_password : bool := true.
+
 Inductive op :=
 | CreateUser (u p salt c : N)               (* auth.NewUser + Save of a new document; c = BcryptCost used *)
 | SetPassword (u p salt c : N)              (* GetUser; SetPassword; Save *)
@@ -70,10 +83,11 @@ Inductive op :=
                                                ev = evicted cache entry (pw, cost, salt, pw0) *)
 (* AuthenticateUser on an Authenticator whose bcrypt cost was changed to c (auth.go rehashPassword), split into
    its storage steps: LoginRehash = GetUser + the password check + the callback on the caller's copy;
-   RehashSave = one CAS Save attempt of casUpdatePrincipal (on a CAS mismatch: the reload).  Anything may be
+   RehashSave = one CAS Save attempt of casUpdatePrincipal (on a CAS mismatch: the reload and the callback on the
+   reloaded copy; ev = the cache entry evicted by that callback's password comparison).  Anything may be
    scheduled between them; [a] names the request in flight. *)
 | LoginRehash (a u p : N) (ev : option (N * N * N * N)) (c : N)
-| RehashSave (a salt : N)
+| RehashSave (a salt : N) (ev : option (N * N * N * N))
 | AuthCookie (sid : N)                      (* AuthenticateCookie *)
 | AuthOneTime (sid : N)                     (* AuthenticateOneTimeSession *)
 | GetSession (sid : N).
@@ -116,7 +130,8 @@ Section Model.
     s_onetime : bool            (* OneTime *)
   }.
 
-  (* a login whose re-hash is still to be saved: user, presented password, configured cost, CAS it read *)
+  (* a login whose re-hash is still to be saved (the callback returned an updated principal for the copy it was
+     given): user, presented password, configured cost, CAS of that copy *)
   Record pend := mkPend { p_user : N; p_pw : N; p_cost : N; p_ver : N }.
 
   Definition key : Type := (N * hash C)%type.   (* authKey: sha1(password) ++ bcrypt hash *)
@@ -187,9 +202,32 @@ Section Model.
              end
     end.
 
-  (* the callback of rehashPassword: re-hash iff the document has a hash whose cost differs from the configured one *)
+  (* a hash is stored and its cost differs from the configured one *)
   Definition wants_rehash (usr : user) (c : N) : bool :=
     match u_hash usr with Some h => negb (cost C h =? c) | None => false end.
+
+  (* compareHashAndPassword(cachedHashes, h, p): the verdict, and the cache afterwards *)
+  Definition cmp_ok (st : state) (h : hash C) (p : N) : bool :=
+    kmem (digest C p, h) (cache st) || verify C h p.
+  Definition cmp_cache (st : state) (h : hash C) (p : N) (ev : option key) : list key :=
+    let k := (digest C p, h) in
+    if kmem k (cache st) then cache st
+    else if verify C h p then cache_put (cap st) ev k (cache st) else cache st.
+
+  (* the callback of rehashPassword applied to a copy [usr] of the user document (the caller's, or a reload):
+       hashCost != auth.BcryptCost [&& compareHashAndPassword(cachedHashes, hash, password)]   ([rcp]: is it there)
+       then SetPassword(password) (which refuses more than 72 bytes), else ErrUpdateCancel.
+     [rehash_go] = it returns an updated principal to be saved; [rehash_cache] = the cache after the comparison *)
+  Definition rehash_go (rcp : bool) (st : state) (usr : user) (p c : N) : bool :=
+    match u_hash usr with
+    | Some h => negb (cost C h =? c) && (negb rcp || cmp_ok st h p) && negb (too_long C p)
+    | None => false
+    end.
+  Definition rehash_cache (rcp : bool) (st : state) (usr : user) (p c : N) (ev : option key) : list key :=
+    match u_hash usr with
+    | Some h => if rcp && negb (cost C h =? c) then cmp_cache st h p ev else cache st
+    | None => cache st
+    end.
 
   (* datastore.Get of the session document: the store has removed it once it expired *)
   Definition get_session (st : state) (sid : N) : option session :=
@@ -220,7 +258,7 @@ Section Model.
   Definition consume (st : state) (sid : N) (s : session) : state :=
     if s_onetime s then with_sessions st (adel sid (sessions st)) else st.
 
-  Definition step_gen (ccd : bool) (st : state) (o : op) : state * out :=
+  Definition step_gen (ccd rcp : bool) (st : state) (o : op) : state * out :=
     match o with
     | CreateUser u p salt c =>
         if too_long C p then (st, OErr EPwTooLong)
@@ -271,30 +309,32 @@ Section Model.
         let st2 :=
           match w, alookup u (users st) with
           | Some _, Some usr =>
-              (* the callback on the caller's copy; SetPassword refuses a password of more than 72 bytes *)
-              if wants_rehash usr c && negb (too_long C p)
-              then with_pending st1 (aset a (mkPend u p c (u_ver usr)) (pending st1)) else st1
+              (* rehashPassword: the callback on the caller's copy (its comparison finds the pair just verified) *)
+              let st1' := with_cache st1 (rehash_cache rcp st1 usr p c None) in
+              if rehash_go rcp st1 usr p c
+              then with_pending st1' (aset a (mkPend u p c (u_ver usr)) (pending st1')) else st1'
           | _, _ => st1
           end in
-        (st2, OPass w (len (cache st1)))
-    | RehashSave a salt =>
+        (st2, OPass w (len (cache st2)))
+    | RehashSave a salt ev =>
         match alookup a (pending st) with
         | None => (st, ORehash false)
         | Some pd =>
             let drop := with_pending st (adel a (pending st)) in
             match alookup (p_user pd) (users st) with
-            | None => (drop, ORehash false)                       (* reload finds nothing: ErrNotFound *)
+            | None => (drop, ORehash false)                       (* the document is gone: Save fails, give up *)
             | Some usr =>
                 if u_ver usr =? p_ver pd then
-                  (* the copy in hand is the stored document: the callback decides, the CAS Save succeeds *)
-                  if wants_rehash usr (p_cost pd) then
-                    (with_users drop (aset (p_user pd)
-                        (mkUser (new_hash (p_pw pd) salt (p_cost pd)) (u_disabled usr) (next_uuid st) (next_uuid st) (p_pw pd))
-                        (users st)), ORehash true)
-                  else (drop, ORehash false)
+                  (* the copy in hand is the stored document: the CAS Save of the re-hashed password succeeds *)
+                  (with_users drop (aset (p_user pd)
+                      (mkUser (new_hash (p_pw pd) salt (p_cost pd)) (u_disabled usr) (next_uuid st) (next_uuid st) (p_pw pd))
+                      (users st)), ORehash true)
                 else
-                  (* CAS mismatch: reload the user, try again later *)
-                  (with_pending st (aset a (mkPend (p_user pd) (p_pw pd) (p_cost pd) (u_ver usr)) (pending st)), ORehash false)
+                  (* CAS mismatch: reload the user and apply the callback to the reloaded copy *)
+                  let st1 := with_cache st (rehash_cache rcp st usr (p_pw pd) (p_cost pd) (ev_key ev)) in
+                  if rehash_go rcp st usr (p_pw pd) (p_cost pd)
+                  then (with_pending st1 (aset a (mkPend (p_user pd) (p_pw pd) (p_cost pd) (u_ver usr)) (pending st1)), ORehash false)
+                  else (with_pending st1 (adel a (pending st1)), ORehash false)
             end
         end
     | AuthCookie sid =>
@@ -329,20 +369,20 @@ Section Model.
     end.
 
   (* histories *)
-  Definition run_gen (ccd : bool) (st : state) (ops : list op) : state :=
-    fold_left (fun s o => fst (step_gen ccd s o)) ops st.
+  Definition run_gen (ccd rcp : bool) (st : state) (ops : list op) : state :=
+    fold_left (fun s o => fst (step_gen ccd rcp s o)) ops st.
 
   (* the outputs along a history (what the harness observes) *)
-  Fixpoint outs_gen (ccd : bool) (st : state) (ops : list op) : list out :=
+  Fixpoint outs_gen (ccd rcp : bool) (st : state) (ops : list op) : list out :=
     match ops with
     | [] => []
-    | o :: r => let (st', x) := step_gen ccd st o in x :: outs_gen ccd st' r
+    | o :: r => let (st', x) := step_gen ccd rcp st o in x :: outs_gen ccd rcp st' r
     end.
 
   (* the code as it is now *)
-  Definition step := step_gen cookie_checks_disabled.
-  Definition run := run_gen cookie_checks_disabled.
-  Definition outs := outs_gen cookie_checks_disabled.
+  Definition step := step_gen cookie_checks_disabled rehash_checks_password.
+  Definition run := run_gen cookie_checks_disabled rehash_checks_password.
+  Definition outs := outs_gen cookie_checks_disabled rehash_checks_password.
 End Model.
 
 
